@@ -199,7 +199,12 @@ def reference_delegate(ctx, rule):
             'the delegate no longer returns placeholder iff skipped', dr.loc(), instance='iff')
   sk_calls = [c for c in walk_local(dr.node) if isinstance(c, ast.Call) and prog.resolve_call(dr, c) == SKIP]
   ok = bool(sk_calls) and all(u(c.args[1]) == 'self._skip_unknown' for c in sk_calls)
-  uns = def_of(facts3[[n for n in g3.live_nodes() if n.kind == 'test'][0].id], u(sk_calls[0].args[0])) if sk_calls and [n for n in g3.live_nodes() if n.kind == 'test'] else None
+  tests_ = [n for n in g3.live_nodes() if n.kind == 'test']
+  uns = def_of(facts3[tests_[0].id], u(sk_calls[0].args[0])) if sk_calls and tests_ else None
+  from ..lib import last_component_of
+  whole = last_component_of(dr, facts3[tests_[0].id], sk_calls[0].args[0]) if sk_calls and tests_ else None
+  if whole is not None and whole == dr.params[1]:
+    uns = "scoped_selector.rsplit('/',1)[-1]"      # any spelling of "the last '/'-component of the reference text"
   ctx.check(ok and uns is not None and uns.replace(' ', '') == "scoped_selector.rsplit('/',1)[-1]", rule, construct(dr),
             'the decision uses the unscoped selector and the parser\'s skip_unknown', 'the skip decision for references uses `%s`' % uns, dr.loc(), instance='args')
 
